@@ -396,6 +396,12 @@ def r6(model: Model, rep: Report):
                           detail="leaf-query")
         root = ev.attr(graph, "root_node", Frame(f, f.module, {}, G, 0))
         if parent == root:
+            chan_empty = t_cmp("is", leaf, NONE) if leaf is not None else None
+            est = chan_empty is not None and _implies(ev, p.cond, chan_empty)
+            rep.check(est, "C01.R6", construct + "[root-needs-empty-channel]", f.loc, found=f"appended under the root on path [{pid}]",
+                      required="only when get_leaf_at_any(operation.channel_identifiers) is None",
+                      what="an operation is placed at the circuit start although its channels may already hold operations (the leaf lookup is "
+                           "skipped or its result ignored on this path)", detail="root-empty")
             if final_link is None:
                 ok = _implies(ev, p.cond, t_not(has_rel))
                 why = "appended to the root although the operation keeps a link with a reference"
@@ -426,7 +432,7 @@ def r6(model: Model, rep: Report):
         rv = p.value
         rep.check(p.exit == "return" and rv == graph, "C01.R6", construct + "[returns-graph]", f.loc, found=show(rv) if rv else p.exit, required="return graph",
                   what="add_to_graph does not hand back the graph it updated", detail="return")
-    rep.floor("feasible paths of add_to_graph", n_paths, 5)
+    rep.floor("feasible paths of add_to_graph", n_paths, 3)
     rep.analysed["C01.R6 feasible paths"] = n_paths
 
 
@@ -482,7 +488,7 @@ def r7(model: Model, rep: Report):
                   what="nested blocks do not pass their own link to exactly their first operations: " + "; ".join(bad), detail="handover")
     # extend ---------------------------------------------------------------------
     f = K.resolve("extend")
-    ev = Evaluator(model, inline_methods=False)
+    ev = Evaluator(model, inline_methods=True, opaque={"CircuitCompositeOperation.add", "CircuitCompositeOperation.copy"})
     paths = PathEnumerator(ev).function_paths(f, self_cls=K)
     s = sym(f.self_name)
     other = sym([p for p in f.param_names if p != f.self_name][0])
@@ -521,6 +527,15 @@ def r7(model: Model, rep: Report):
             if sts:
                 if not _implies(ev, bp.cond, no_rel):
                     bad.append("re-links an operation that has a relation")
+                for e in bp.events:
+                    if e.kind == "store" and e.term[2] == "relation_link":
+                        val = getattr(e.node, "value", None)
+                        inside = isinstance(val, ast.Name) and any(
+                            isinstance(n, (ast.Assign, ast.AnnAssign, ast.AugAssign)) and any(isinstance(t, ast.Name) and t.id == val.id
+                                for t in (n.targets if isinstance(n, ast.Assign) else [n.target])) for n in ast.walk(lp.node))
+                        if not isinstance(val, ast.Name) or inside:
+                            bad.append("the chain link is computed inside the loop, after earlier heads of the copy were added: heads that should "
+                                       "start together are chained behind one another")
                 for t in sts:
                     if t[1] != op:
                         bad.append(f"assigns {show(t)}")
@@ -535,11 +550,14 @@ def r7(model: Model, rep: Report):
         rep.check(not bad, "C01.R7", construct + "[hand-over]", f.loc, found="; ".join(bad) or "store iff no relation; add always",
                   required="relation_link = <chain link> exactly when the copy's operation has no relation; self.add(operation) always",
                   what="chaining of the appended copy broken: " + "; ".join(bad), detail="handover")
-        # the chain link itself
-        for lk in assigned:
-            emptyish = _implies(ev, p.cond, t_or(*[e for e in empty_forms])) if empty_forms else False
+        # the chain link itself (an inlined helper yields a conditional value: look at each alternative under its guard)
+        alts = []
+        for lk0 in assigned:
+            alts.extend(_alternatives(lk0, p.cond))
+        for lk, pcond in alts:
+            emptyish = _implies(ev, pcond, t_or(*[e for e in empty_forms])) if empty_forms else False
             if lk == ("call", ("fn", "RelationLink.no_relation"), (), ()) or (lk[0] == "new" and lk[1] == "RelationLink" and dict(lk[2]).get("_reference_node") == NONE):
-                rep.check(emptyish, "C01.R7", construct + "[no-relation-only-when-empty]", f.loc, found=f"no_relation when [{show(p.cond)}]",
+                rep.check(emptyish, "C01.R7", construct + "[no-relation-only-when-empty]", f.loc, found=f"no_relation when [{show(pcond)}]",
                           required="only when the graph is empty", what="the appended copy starts at 0 although the block already has content", detail="empty-guard")
                 continue
             ok = lk[0] == "new" and lk[1] == "MultiRelationLink"
@@ -555,10 +573,10 @@ def r7(model: Model, rep: Report):
             rep.check(grp == ("enum", "MultiRelationType", "LATEST") and typ == ("enum", "RelationType", "FOLLOWED_BY"), "C01.R7",
                       construct + "[latest-followed-by]", f.loc, found=f"{show(grp)}, {show(typ)}", required="LATEST, FOLLOWED_BY",
                       what="copies are not chained FOLLOWED_BY the latest leaf", detail="latest")
-            rep.check(_implies(ev, p.cond, t_not(t_or(*empty_forms))) if empty_forms else True, "C01.R7", construct + "[chain-when-non-empty]", f.loc,
-                      found=f"chained when [{show(p.cond)}]", required="whenever the graph is not empty", what="guard of the chain link is not 'graph not empty'",
+            rep.check(_implies(ev, pcond, t_not(t_or(*empty_forms))) if empty_forms else True, "C01.R7", construct + "[chain-when-non-empty]", f.loc,
+                      found=f"chained when [{show(pcond)}]", required="whenever the graph is not empty", what="guard of the chain link is not 'graph not empty'",
                       detail="chain-guard")
-    rep.floor("return paths of extend", n_ret, 2)
+    rep.floor("return paths of extend", n_ret, 1)
 
 
 def r8(model: Model, rep: Report):
@@ -584,3 +602,9 @@ def r9(model: Model, rep: Report):
     share_rule(rep, model, lambda m, r: h1(m, r, cg, Effects(m, cg)), "C01.R9",
                "the reported time is the CURRENT solution of the equations: every writer of a duration setting, link or graph that the "
                "memoised get_start_time functions read invalidates the memo (= C03.H1)")
+
+
+def _alternatives(t: Term, cond: Term):
+    if t[0] == "ite":
+        return _alternatives(t[2], t_and(cond, t[1])) + _alternatives(t[3], t_and(cond, t_not(t[1])))
+    return [(t, cond)]
